@@ -254,7 +254,9 @@ pub fn expected_table(stmt: &AggregateStatement, rows: &[RowFacts]) -> Result<Ve
             Some(h) => { let mut hidden = 0; match having_value(h, stmt, g, &mut hidden, &aggs) { Some(Outcome::Val(RV::Bool(true))) => Keep::Yes, Some(Outcome::Val(RV::Bool(false))) | Some(Outcome::Val(RV::Null)) => Keep::No, Some(Outcome::Err(_)) => return Err(FoldError::StatementMustFail("having".into())), _ => Keep::Maybe } }
         };
         // a cell that can only be an error makes the whole statement fail
-        let no_value = aggs.iter().enumerate().all(|(i, a)| matches!(a, Aggregate::GroupKey(_)) || (valueless_over_nulls(a) && g.args[i].iter().all(|v| v.is_null())));
+        // (STDDEV / VARIANCE over INTERVAL never have a value either - the other open finding of C04 - whatever their arguments)
+        let no_value = aggs.iter().enumerate().all(|(i, a)| matches!(a, Aggregate::GroupKey(_)) || (valueless_over_nulls(a) && g.args[i].iter().all(|v| v.is_null()))
+            || (matches!(a, Aggregate::StandardDeviation(..)) && g.args[i].iter().all(|v| v.is_null() || matches!(v, RV::Iv(_)))));
         if cells.iter().any(|c| c.err && c.vals.is_empty() && !c.anything && !c.any_ts && !c.any_text) {
             // ... unless the group is one the engine does not list at all (open finding: no aggregate has a value for it): then the
             // wrapper `1000 / COUNT(c)` of that group is never evaluated, and whether the statement fails is not decidable
